@@ -6,6 +6,7 @@ for f in $(git diff --name-only --diff-filter=U); do
   case "$f" in
     evidence/*|known_findings.json) git checkout --ours -- "$f"; git add "$f";;
     lean/MpirProofs.lean|lean/Mpir/Ops/All.lean|MANIFEST.json) git checkout --ours -- "$f"; git add "$f";;
+    tools/props/c[0-9][0-9].py) git checkout --ours -- "$f"; git add "$f";;
     *) echo "UNRESOLVED: $f";;
   esac
 done
